@@ -331,3 +331,27 @@ Definition crash_points (c : cfg) (w : world) (o : op) : list world :=
         (if ok then [append_chunk w2 id size true; step c w o] else [step c w o])
   | _ => [step c w o]
   end.
+
+(* ------------------------------------------------------------------ deletions from outside *)
+(* Somebody removes the whole log directory, or only the file the sink has open, behind the sink's back.  These are NOT
+   operations of the histories C08 quantifies over (its statement lists external RENAME followed by Reopen only: after a
+   deletion acknowledged events are simply gone), which is why they live in a separate type: every theorem about [list op]
+   histories is a theorem about histories without deletions.  They exist for C15's clause "in a directory created on
+   demand": the next open() re-creates the directory (0700) and a new file (configured mode). *)
+Inductive xop := XOp (o : op) | XRmDir (t : Z) | XRmActive (t : Z).
+Definition fs_remove_ino (i : N) (fs : list file) : list file := filter (fun f => negb (N.eqb (f_ino f) i)) fs.
+Definition set_dir (w : world) (fs : list file) (dm : option N) : world :=
+  {| files := fs; dirmode := dm; fopen := fopen w; bw := bw w; lc := lc w; clock := clock w; next_ino := next_ino w;
+     acked := acked w; pruned := pruned w; since_open := since_open w; sout := sout w; serr := serr w |}.
+Definition xstep3 (c : cfg) (w : world) (x : xop) : world * bool * bool :=
+  match x with
+  | XOp o => step3 c w o
+  | XRmDir t => (set_clock (set_dir w [] None) t, true, false)            (* rm -rf Path: the descriptor stays, unlinked *)
+  | XRmActive t =>
+      match fopen w with
+      | Some (i, _) => (set_clock (set_files w (fs_remove_ino i (files w))) t, true, false)
+      | None => (set_clock w t, true, false)
+      end
+  end.
+Definition xstep (c : cfg) (w : world) (x : xop) : world := fst (fst (xstep3 c w x)).
+Definition xop_clock (x : xop) : op := match x with XOp o => o | XRmDir t | XRmActive t => Pause t end.
